@@ -92,6 +92,7 @@ type caseSpec struct {
 	DestExists bool     `json:"dest_exists"`
 	Backend    string   `json:"backend"`
 	Limits     string   `json:"limits"`
+	Choices    []int    `json:"charset_choices,omitempty"` // which member of each charset tie wins (see prebuild.sh); nil = the first
 	name       []byte
 }
 
